@@ -1,6 +1,8 @@
 package main
 
 import (
+	"go/types"
+	"golang.org/x/tools/go/ssa"
 	"fmt"
 	"go/constant"
 	"sort"
@@ -57,7 +59,76 @@ func (a *Analysis) CheckC12(rep *Report) {
 		rep.Ob("T6-table-private", t.Name, len(t.OtherRefs) == 0, pos, fmt.Sprintf("table is referenced by %d instructions outside its registrar's update and lookup's read", len(t.OtherRefs)))
 		rep.Ob("T6-one-registrar-one-lookup", t.Name, len(t.Registrar) <= 1 && len(t.Lookups) >= 1, pos, fmt.Sprintf("%d functions update the table, %d read it", len(t.Registrar), len(t.Lookups)))
 		// T2
-		for _, lf := range t.Lookups {
+		// a function that hands out the registered factory itself with a comma-ok (`LookupXFactory(key) (func() Codec, bool)`)
+		// is a getter: faithful when it returns exactly the table's entry and presence for its parameter; the look-ups
+		// proper are then the module functions that call it (analysed with the getter inlined)
+		lookups := append([]*ssa.Function(nil), t.Lookups...)
+		seenLf := map[*ssa.Function]bool{}
+		for i := 0; i < len(lookups); i++ {
+			lf := lookups[i]
+			if seenLf[lf] {
+				lookups = append(lookups[:i], lookups[i+1:]...)
+				i--
+				continue
+			}
+			seenLf[lf] = true
+			res := lf.Signature.Results()
+			if res.Len() != 2 || !isBoolType(res.At(1).Type()) {
+				continue
+			}
+			if _, isFn := res.At(0).Type().Underlying().(*types.Signature); !isFn {
+				continue
+			}
+			paths, err := a.engineFor(lf).AnalyzeRoot(lf, nil)
+			faithful := err == nil && len(paths) > 0
+			for _, p := range paths {
+				if len(p.Ret) != 2 {
+					faithful = false
+					continue
+				}
+				r0, r1 := stripCT(p.Ret[0]), stripCT(p.Ret[1])
+				okEntry := r0.Op == "lookup" && len(r0.Args) == 2 && tableName(r0.Args[0]) == t.Name && stripCT(r0.Args[1]).Op == "param"
+				okMiss := r0.IsNilConst() || okEntry
+				switch {
+				case r1.Op == "lookupok" && len(r1.Args) == 2 && tableName(r1.Args[0]) == t.Name && stripCT(r1.Args[1]).Op == "param" && okEntry:
+				default:
+					if b, known := r1.Bool(); known {
+						hit := false
+						for _, c := range p.Conds {
+							if c.V.Op == "lookupok" && c.Taken {
+								hit = true
+							}
+						}
+						if (b && hit && okEntry) || (!b && !hit && okMiss) {
+							continue
+						}
+					}
+					faithful = false
+				}
+			}
+			rep.Ob("T2-getter-faithful", FuncName(lf), faithful, a.P.Pos(lf.Pos()), "a function that hands out registered factories does not return exactly the table's entry and its presence for the key it is given")
+			// its callers take its place
+			lookups = append(lookups[:i], lookups[i+1:]...)
+			i--
+			for fn := range a.P.AllFuncs {
+				if !a.P.InModule(fn) || fn.Blocks == nil || a.P.IsTestFile(fn.Pos()) || fn == lf {
+					continue
+				}
+				calls := false
+				for _, b := range fn.Blocks {
+					for _, in := range b.Instrs {
+						if c, ok := in.(ssa.CallInstruction); ok && c.Common().StaticCallee() == lf {
+							calls = true
+						}
+					}
+				}
+				if calls && !seenLf[fn] {
+					lookups = append(lookups, fn)
+				}
+			}
+		}
+		sort.Slice(lookups, func(i, j int) bool { return lookups[i].String() < lookups[j].String() })
+		for _, lf := range lookups {
 			if a.U.IsCodecMethod(lf) {
 				// an Encode/Decode that hands the table to a shared helper (`decodeDynamic(buf, key, table, &field)`): what
 				// it does with a hit and a miss is judged by T3/T4 on its own paths
